@@ -36,6 +36,7 @@ func ruleWitnessReportsExpire(c *eng.Ctx) {
 	age := eng.Call(-1, "time.Time.Sub", "time.Since")
 	timeout := eng.Call(-1, "server.failover.Timeout")
 	old := append(eng.CmpEdges(fn, age, timeout, eng.GT), eng.CmpEdges(fn, age, timeout, eng.GE)...)
+	young := append(eng.CmpEdges(fn, age, timeout, eng.LE), eng.CmpEdges(fn, age, timeout, eng.LT)...)
 	var dels []ssa.Instruction
 	eng.Instrs(fn, func(in ssa.Instruction) {
 		if call, isCall := in.(*ssa.Call); isCall && isBuiltinCall(call, "delete") && eng.Load(wf, nil)(call.Call.Args[0]) {
@@ -52,8 +53,26 @@ func ruleWitnessReportsExpire(c *eng.Ctx) {
 	}
 	ok, why := true, ""
 	switch {
-	case len(old) == 0:
+	case len(old) == 0 && len(young) == 0:
 		ok, why = false, "report() never compares the age of a witness's report with Timeout()"
+	case len(old) == 0:
+		// the age test is one operand of a named condition (`stillCounts := IsWitness(…) && age <= timeout; if !stillCounts`):
+		// no edge says "old" for certain, but the edges that say "young" do — an iteration that keeps the witness crosses one
+		for _, ml := range eng.MapLoops(fn) {
+			if !eng.Load(wf, nil)(ml.Range.X) {
+				continue
+			}
+			var into []eng.Edge
+			for k, sc := range ml.Header.Succs {
+				if ml.Body[sc] {
+					into = append(into, eng.Edge{From: ml.Header, Succ: k})
+				}
+			}
+			q := &eng.PathQuery{Fn: fn, FromEdges: into, CutInstr: isDel, CutEdges: young, Target: isLoopOrExit}
+			if w := q.Find(); w != nil {
+				ok, why = false, "a witness can stay in the table without its report being known to be younger than Timeout() ("+w.String()+")"
+			}
+		}
 	case len(dels) == 0:
 		ok, why = false, "report() never deletes from the witness table"
 	default:
